@@ -40,11 +40,13 @@ dawgie.db.targets = lambda *a, **k: list(W['targets'])
 
 def _next():
     if W.get('fail_next'):
-        # the database refuses to hand out a run id once (farm.dispatch:
-        # "allow db impl to throw an exception via rerunid()")
-        W['fail_next'] = False
-        W['outs'].append([10])
-        raise RuntimeError('db.next() failed')
+        # the database refuses to hand out a run id once, at the k-th request
+        # of this dispatch (farm.dispatch: "allow db impl to throw an exception
+        # via rerunid()")
+        W['fail_next'] -= 1
+        if not W['fail_next']:
+            W['outs'].append([10])
+            raise RuntimeError('db.next() failed')
     r = W['stored'] + 1
     W['outs'].append([8, r])
     return r
@@ -246,11 +248,11 @@ def run_case(case):
             elif k == 'tick':
                 F.dispatch()
             elif k == 'tickf':
-                W['fail_next'] = True
+                W['fail_next'] = ev[1] if len(ev) > 1 else 1
                 try:
                     F.dispatch()
                 finally:
-                    W['fail_next'] = False
+                    W['fail_next'] = 0
             elif k == 'rep':
                 _, w, x, t, rid, oc, vals = ev
                 suc = {3: True, 1: False, 6: None}[oc]
@@ -315,7 +317,7 @@ def gen_event(rng, profile, tags, graph, hands, holding, nextw, outs_of, vid, N)
         'mixed': dict(org=4, tick=6, rep=8, reg=4, poll=1, drop=1, act=1, pause=1, stored=1),
         'sched': dict(org=5, tick=6, rep=9, reg=5, poll=0, drop=0, act=0, pause=0, stored=1),
         'farm': dict(org=3, tick=6, rep=3, reg=5, poll=3, drop=3, act=3, pause=1, stored=2),
-        'fault': dict(org=5, tick=5, tickf=2, rep=8, reg=4, poll=0, drop=0, act=0, pause=0, stored=1),
+        'fault': dict(org=6, tick=4, tickf=3, rep=8, reg=4, poll=0, drop=0, act=0, pause=0, stored=1),
     }[profile]
     kinds = [k for k, w in weights.items() for _ in range(w)]
     while True:
@@ -348,7 +350,7 @@ def gen_event(rng, profile, tags, graph, hands, holding, nextw, outs_of, vid, N)
     if k == 'tick':
         return ['tick']
     if k == 'tickf':
-        return ['tickf']
+        return ['tickf', rng.choice([1, 1, 2, 2, 3])]
     if k == 'rep':
         w, (x, t, rid) = rng.choice(held)
         oc = rng.choice([3, 3, 3, 3, 1, 1, 6])
